@@ -17,7 +17,7 @@ undecodable fields answer `bad-request` — the model never defaults.
 
 def handlers : List (String → List String → Option String) :=
   [FuModel.Drv.Xargs.handle, FuModel.Drv.Xargs.handleRun, FuModel.Drv.XargsSys.handle,
-   FuModel.Drv.FindNum.handle, FuModel.Drv.FindTime.handle, FuModel.Drv.FindRun.handle, FuModel.Drv.FindRun.handleV, FuModel.Drv.FindRun.handlePipe, FuModel.Drv.FindRun.handleX, FuModel.Drv.FindRun.handleXC, FuModel.Drv.FindRun.handleD, FuModel.Drv.FindRun.handlePerm, FuModel.Drv.FindRun.handlePrintf, FuModel.Drv.FindGlob.handle, FuModel.Drv.FindRegex.handle, FuModel.Drv.FindCmd.handle]
+   FuModel.Drv.FindNum.handle, FuModel.Drv.FindTime.handle, FuModel.Drv.FindRun.handle, FuModel.Drv.FindRun.handleV, FuModel.Drv.FindRun.handlePipe, FuModel.Drv.FindRun.handleX, FuModel.Drv.FindRun.handleOrder, FuModel.Drv.FindRun.handleXC, FuModel.Drv.FindRun.handleD, FuModel.Drv.FindRun.handlePerm, FuModel.Drv.FindRun.handlePrintf, FuModel.Drv.FindGlob.handle, FuModel.Drv.FindRegex.handle, FuModel.Drv.FindCmd.handle]
 
 def preds : List (String × (List String → List String → Option Bool)) :=
   [("C05", FuModel.Drv.Xargs.pred), ("C04", FuModel.Drv.Xargs.predC04),
@@ -26,7 +26,7 @@ def preds : List (String × (List String → List String → Option Bool)) :=
    ("C14", FuModel.Drv.FindNum.predC14), ("C15", FuModel.Drv.FindTime.predC15),
    ("C01", FuModel.Drv.FindRun.predFind), ("C02", FuModel.Drv.FindRun.predFindSet), ("C03", FuModel.Drv.FindRun.predFind),
    ("C07", FuModel.Drv.FindRun.predC07), ("C18", FuModel.Drv.FindRun.predC18),
-   ("C08", fun req obs => if req.head? == some "findxc" then FuModel.Drv.FindRun.predXC req obs else FuModel.Drv.FindRun.predX true req obs), ("C09", FuModel.Drv.FindRun.predX false), ("C10", FuModel.Drv.FindRun.predC10), ("C12", FuModel.Drv.FindGlob.predC12), ("C13", FuModel.Drv.FindRun.predC13), ("C16", FuModel.Drv.FindRun.predC16),
+   ("C08", fun req obs => if req.head? == some "findxc" then FuModel.Drv.FindRun.predXC req obs else FuModel.Drv.FindRun.predX true req obs), ("C09", fun req obs => if req.head? == some "exec-order" then FuModel.Drv.FindRun.predOrder req obs else FuModel.Drv.FindRun.predX false req obs), ("C10", FuModel.Drv.FindRun.predC10), ("C12", FuModel.Drv.FindGlob.predC12), ("C13", FuModel.Drv.FindRun.predC13), ("C16", FuModel.Drv.FindRun.predC16),
    ("C11", FuModel.Drv.FindCmd.predC11),
    ("C17", fun req obs => if req.head? == some "find" then FuModel.Drv.FindRun.predFind req obs else FuModel.Drv.FindRegex.predMatch req obs)]
 
